@@ -259,6 +259,13 @@ class World:
         self.seed, self.fam = seed, fam
         self.root = _process_dir()
         self.paths = {p: os.path.join(self.root, "f%d.rec" % p) for p in range(1, npaths + 1)}
+        # the NAME a writing call is given for path p: plain, or with the shortcuts the library documents
+        # ("~" and "$VAR" are expanded by SFile.open); the projections always use the plain path
+        os.environ["VHRSDIR"] = self.root
+        os.environ["HOME"] = self.root
+        style = {p: (seed + 3 * p + writer) % 4 for p in self.paths}
+        self.names = {p: (self.paths[p] if style[p] < 2 else
+                          "$VHRSDIR/f%d.rec" % p if style[p] == 2 else "~/f%d.rec" % p) for p in self.paths}
         self._wipe()
         self.handles = {}
         self.htext = {}
@@ -360,7 +367,7 @@ class World:
                 # which *values* later chunks get (benign for text): from the file when it is appended to
                 appending = e["mode"] == "r+" and bool(before[e["p"]])
                 self.htext[e["h"]] = self._file_is_text(e["p"]) if appending else e["delim"] != "none"
-                sf = sfile.SFile(self.paths[e["p"]], mode=e["mode"], delim=DELIMS[e["delim"]])
+                sf = sfile.SFile(self.names[e["p"]], mode=e["mode"], delim=DELIMS[e["delim"]])
                 self.handles[e["h"]] = sf
                 self.hpath[e["h"]] = e["p"]
                 res["size"] = self._hcount(sf)
@@ -380,7 +387,7 @@ class World:
                 self.hpath.pop(e["h"], None)
                 self.handles.pop(e["h"]).close()
             elif op in ("write", "append"):
-                path = self.paths[e["p"]]
+                path = self.names[e["p"]]
                 if op == "append" and before[e["p"]]:
                     text = self._file_is_text(e["p"])
                 else:
